@@ -29,7 +29,7 @@ def run(ctx):
     if ctx.replay:
         return progcheck.replay_file(ctx, ctx.replay)
     thorough = ctx.tier == "thorough"
-    for dev in ("AnnNoFilter", "FuncAnnNoFilter", "CheckNoFilter", "TonlInTests", "TonlPkgLevelInTests", "FirstFile", "TestSuffixFirst", "PkgWideImports"):
+    for dev in ("AnnNoFilter", "FuncAnnNoFilter", "CheckNoFilter", "TonlInTests", "TonlPkgLevelInTests", "FirstFile", "TestSuffixFirst", "PkgWideImports", "FactsWithoutTestAnns"):
         r = ctx.tlc("Files", cfg(emit=False, dev='{"%s"}' % dev, live=False), label="c14_dev_" + dev, allow_violation=True, count=False)
         if r["violated"] is None:
             raise vlib.ToolError("deviation %s violates nothing: vacuous" % dev)
@@ -56,14 +56,14 @@ def run(ctx):
         samples += rep.samples[:1] if len(samples) < 3 else []
         if not ctx.violations:
             # the real binary and go vet (test variants, external test packages and real directories only exist there)
-            real = [it for it in items if it[2]["sc"]["cls"] != "xtest"]
+            real = [it for it in items if it[2]["sc"]["cls"] not in ("xtest",)]
             nreal += progcheck.real_drivers(ctx, progcheck.sample(real, 48 if thorough else 10, ctx.seed), None, rep, cfg=c,
                                             project=lambda ds: proglib.keyset(ds), drivers=("binary", "vet") if thorough else ("binary",))
             # the configuration in effect is the one given by the flags, also when the environment says the opposite
             # (a flag value equal to the built-in default is still a given flag); excluded directories are excluded whatever
             # the working directory of the driver (go vet runs the tool in each package's directory)
             contrary = {"GOGREEMENT_SCAN_TESTS": "false" if c["scan_tests"] == "true" else "true",
-                        "GOGREEMENT_EXCLUDE_PATHS": "zzgen,vendor" if c["exclude_paths"] == "testdata" else "testdata"}
+                        "GOGREEMENT_EXCLUDE_PATHS": "zzGen,vendor" if c["exclude_paths"] == "testdata" else "testdata"}
             dirs = [it for it in real if it[2]["sc"]["cls"] in ("tdpath", "genpath") and (it[2]["sc"]["ann"] or it[2]["sc"]["viol"])]
             nreal += progcheck.real_drivers(ctx, progcheck.sample(real, 24 if thorough else 6, ctx.seed + 1), None, rep, cfg=c, env_cfg=contrary,
                                             project=lambda ds: proglib.keyset(ds), drivers=("binary",))
@@ -91,7 +91,7 @@ def run(ctx):
         "evaluations": run_n + nreal,
         "distinct_nontrivial": nontrivial,
         "rule": "terminal states of Files.tla: 7 file classes (regular sibling, in-package _test.go, external test package, package under a *testdata* "
-                "directory, package under zzgen/, sibling files named *_zzgen.go sorting after / before a.go) x content flags (declares an annotation used "
+                "directory, package under zzGen/, sibling files named *_zzGen.go sorting after / before a.go) x content flags (declares an annotation used "
                 "by a.go, contains violations, starts with a file-level @ignore) x scan-tests x 6 exclude-paths values (incl. a nested pair of entries); each is concretised and "
                 "analysed in process under that configuration (one harness process per configuration), a sample by the real binary, a second sample with the "
                 "configuration given by flags while the environment says the opposite, and packages under excluded directories under go vet (tool started in the package directory); all "
